@@ -4,7 +4,7 @@ From Coq Require Import List NArith Bool Lia.
 Import ListNotations.
 From Snaps Require Import Base.Bytes Base.Lines Base.Dec Base.Assoc.
 From Snaps Require Import Model.Frame Model.PathModel Model.Mode Model.Api.
-From Snaps Require Import Proofs.BytesP Proofs.LinesP Proofs.FrameP Proofs.ApiP Proofs.HistoryP Proofs.UpdateHistoryP.
+From Snaps Require Import Proofs.BytesP Proofs.LinesP Proofs.FrameP Proofs.ApiP Proofs.HistoryP Proofs.UpdateHistoryP Proofs.StandaloneHistoryP.
 Local Open Scope string_scope.
 
 (* Two processes. The first runs history h (any interleaving of tests, any mix of
@@ -106,3 +106,18 @@ Example C01_example :
   map o_outcome (snd (run (replay_start (fst (run ex_s0 ex_h)) k2_env_ro) ex_h))
     = [Passed; Passed; Passed; NoCall; Passed].
 Proof. split; vm_compute; reflexivity. Qed.
+
+(* ALL FIVE ENTRY POINTS. Histories mixing MatchSnapshot / MatchJSON / MatchYAML with MatchStandaloneSnapshot /
+   MatchStandaloneJSON in any interleaving: the replay theorem holds for the union, provided no standalone file of the
+   history is also a multi-entry file of the history (necessary: K12, computed in C19_path_collision_refuted); only the
+   files addressed by multi-entry calls need to be well-formed - standalone files hold arbitrary bytes *)
+Theorem C01_replay_all_entry_points : forall s0 h e2,
+  fresh s0 -> Forall mixed_op_ok h -> Forall has_value h ->
+  wf_on (fun p => In p (map fpath (mfacts s0 h))) (s_fs s0) ->
+  disjoint_paths (mfacts s0 h) (sfacts s0 h) ->
+  Forall rec_ok (snd (run s0 h)) ->
+  let s1 := fst (run s0 h) in
+  let t0 := replay_start s1 e2 in
+  Forall silent_pass (snd (run t0 h)) /\ s_fs (fst (run t0 h)) = s_fs s1.
+Proof. exact replay_after_create_all_gen. Qed.
+Print Assumptions C01_replay_all_entry_points.
